@@ -68,7 +68,11 @@ def buffer_key(L):
     if not isinstance(L, tuple) or not L:
         return None
     if L[0] == "pure" and short(L[1]) in ("len", "remaining") and len(L[2]) == 1:
-        return (norm_base(L[2][0]), L[3][0] if L[3] else 0)
+        r = norm_base(L[2][0])
+        if isinstance(r, tuple) and r and r[0] == "pure" and short(r[1]) in ("deref", "as_ref", "as_slice", "as_bytes", "borrow", "chunk") and r[2]:
+            # `<[T]>::len(buf.deref())` (a `&[T]` parameter of a helper): the length of the same view PtrMetadata reads
+            return (norm_base(r[2][0]), r[3][0] if r[3] else 0)
+        return (r, L[3][0] if L[3] else 0)
     if L[0] == "unop" and L[1] == "PtrMetadata":
         x = L[2]
         while isinstance(x, tuple) and x and x[0] in ("ref", "cast"):
